@@ -348,6 +348,9 @@ def run(chk):
     from rules.C01 import executor_wiring
 
     executor_wiring(chk, "O4.5", drv)
+    from rules.C07 import drain_before_drive_rule
+
+    drain_before_drive_rule(chk, "O4.4", drv)
     chk.ob("O4.5", "task_start := sampler start timestamp", ts is not None and u(ts) == "self.start_timestamp", ctor[0], "")
 
     check_execute_single(chk, drv, "O4.6", runs)
